@@ -57,12 +57,18 @@ def check_case(stats, case):
         if smin is None:
             return ('overflow_at_S0', 'ws=%d argv=%r: stack_overflow at 400 words; reference: %s\n%s' % (ws, vals, ref.kind, src))
         sizes.append(smin)
-    for S in sizes:
-        run = run_lines(compile_lines(src, ws, S, False), args, budget=1_500_000)
+    builds = [(S, False) for S in sizes]
+    if not ref.kind.startswith('fault'):
+        # the release code is shared with --unchecked builds, whose allocation sequence differs (no guards)
+        builds.append((S0, True))
+    for S, unchecked in builds:
+        run = run_lines(compile_lines(src, ws, S, unchecked), args, budget=1_500_000)
         stats.evaluated()
         if run.outcome == svm.BUDGET:
             raise Discard('vm budget')
-        where = 'ws=%d S=%d%s argv=%r' % (ws, S, ' (=S_min)' if S != S0 else '', vals)
+        where = 'ws=%d S=%d%s%s argv=%r' % (ws, S, ' (=S_min)' if S != S0 else '', ' --unchecked' if unchecked else '', vals)
+        if unchecked:
+            stats.cls('unchecked_builds_monitored')
         if run.res is None:
             return ('asm', '%s: %s\n%s' % (where, run.outcome, src))
         fm = FrameMonitor(run.prog)
